@@ -64,7 +64,7 @@ def _dim(case):
 
 
 def _lenres(r, value):
-    if r is value or isinstance(r, str):
+    if isinstance(r, str):
         return 'same'
     if hasattr(r, 'unit'):
         if r.unit != 'px':
@@ -112,6 +112,11 @@ def line_height(case):
     if r == 'normal':
         return ['normal']
     return [r[0], _num(r[1])]
+
+
+def direct(case):
+    """dispatcher: (function name, case)"""
+    return globals()[case[0]](case[1])
 
 
 # --------------------------------------------------------------------------------------------- full renders
@@ -184,11 +189,13 @@ def render_styles(case):
     out = {'direct': {}, 'boxes': {}}
     # 1. the renderer's own glue up to the style function
     html, user, fetched = _make_html(case)
+    if not case.get('direct', True):
+        html = None
     options = dict(DEFAULT_OPTIONS)
     options['stylesheets'] = user
     options['presentational_hints'] = bool(case.get('hints'))
-    context = Document._build_layout_context(html, TEST_UA_FONT_CONFIG, CounterStyle(), options)
-    for el in html.etree_element.iter():
+    context = html and Document._build_layout_context(html, TEST_UA_FONT_CONFIG, CounterStyle(), options)
+    for el in (html.etree_element.iter() if html else ()):
         n = el.get(attr)
         if n is None:
             continue
